@@ -132,7 +132,10 @@ FORMS = [
   ('la-compr-var', 'C', u'[‹C.num› for ‹C.num› in [1, 2]][0] + $«C.num»'),
   ('la-lambda', 'C', u'(lambda ‹C.num›: ‹C.num› + 1)($«C.num»)'),
   ('la-local-table', 'C', u'‹@B› = «@A»\nreturn len(‹@B›.lookupRecords(«A.txt»=$«C.key»))'),
-  ('la-local-table-self', 'C', u'‹@C› = «@A»\nreturn [r.«A.num» for r in ‹@C›.lookupRecords(«A.txt»=$«C.key»)]'),
+  ('la-local-table-self', 'C', u'‹@C› = «@A»\nreturn len(‹@C›.lookupRecords(«A.txt»=$«C.key»))'),
+  ('la-local-table-in-comprehension', 'C',
+   u'‹@C› = «@A»\nreturn [r.«A.num» for r in ‹@C›.lookupRecords(«A.txt»=$«C.key»)]'),
+  ('la-local-table-in-lambda', 'C', u'‹@B› = «@A»\nreturn (lambda: len(‹@B›.all))()'),
   ('la-table-string', 'C', u"'‹@A›.lookupRecords' + str(len(«@A».all))"),
   ('la-other-table-col', 'C', u'str($«C.txt») + str($«C.aref».«A.txt») + str($«C.aref».«A.num»)'),
   ('la-order-string', 'C', u'"-‹A.num›" + str(«@A».lookupOne(order_by="-«A.num»").«A.num»)'),
@@ -170,6 +173,9 @@ FORMS = [
   ('group-rec', 'S', u'len(rec.group.«C.num»)'),
 ]
 FORM_LABELS = [f[0] for f in FORMS]
+# several forms, one root cause
+SIG_ALIAS = {'la-local-table-in-comprehension': 'local-table-alias-in-nested-scope',
+             'la-local-table-in-lambda': 'local-table-alias-in-nested-scope'}
 
 
 def parse_template(t):
@@ -759,7 +765,8 @@ def judge(stt, before, after, reply, out, uas, fn_table):
         stt['formulas'].pop(cr)      # no longer follows its template: later renames judge it by (1) and (2) only
         kind, ctx = slot_report(parts, old_names, new_names, frozen, new)
         if kind in ('not-rewritten', 'lookalike-rewritten') and not td:
-          fail('C16:%s:%s' % ('mention-not-rewritten' if kind == 'not-rewritten' else kind, ctx or label),
+          fail('C16:%s:%s' % ('mention-not-rewritten' if kind == 'not-rewritten' else kind,
+                              ctx or SIG_ALIAS.get(label, label)),
                'after %r the formula of %s reads %r; expected %r' % (uas, where, new, exp),
                {'old': old, 'new': new, 'expected': exp, 'renamed': sorted(name_pairs)})
           continue
@@ -832,26 +839,23 @@ def run_case(case):
   out.cls('pre-error-cells:%s' % ('0' if not n_err else '1-5' if n_err <= 5 else '6+'))
   for cr, (label, parts, host) in stt['formulas'].items():
     out.cls('form:' + label)
-  bundles = []
+  # plan: list of (user actions, prelude actions, labels); resolved lazily against the current document
+  plan = [('spec', sp) for sp in specs]
   if len(specs) == 2 and case.get('same_bundle'):
-    # two renames in one bundle: resolve both against the initial state (only if they name different entities)
+    # two renames in one bundle, both resolved against the initial state; only when they address different
+    # entities, neither is the table of the other, and neither needs a prelude
     a = resolve_rename(d, stt, before, specs[0], out)
     b = resolve_rename(d, stt, before, specs[1], out)
-    if a[3] != b[3] and not (a[3].split('.')[0] == b[3] or b[3].split('.')[0] == a[3]) and not a[1] and not b[1] \
-       and not (set(str(x) for u in a[0] for x in u[2:3]) & set(str(x) for u in b[0] for x in u[2:3])):
-      bundles = [(a[0] + b[0], [], a[2] + b[2] + ['two-renames-one-bundle'])]
-      specs = []
-  i = 0
-  while True:
-    if bundles:
-      uas, pre, labels = bundles.pop(0)
-    elif i < len(specs):
-      uas, pre, labels, ent, name = resolve_rename(d, stt, before, specs[i], out)
+    ea, eb = a[3], b[3]
+    if ea != eb and ea.split('.')[0] != eb and eb.split('.')[0] != ea and not a[1] and not b[1]:
+      plan = [('bundle', (a[0] + b[0], [], a[2] + b[2] + ['two-renames-one-bundle']))]
+  for i, (kind, item) in enumerate(plan):
+    if kind == 'bundle':
+      uas, pre, labels = item
+    else:
+      uas, pre, labels, _ent, _name = resolve_rename(d, stt, before, item, out)
       if i == 1:
         labels.append('second-rename')
-      i += 1
-    else:
-      break
     if pre:
       r0 = d.apply(pre)
       if not r0.ok:
@@ -864,12 +868,12 @@ def run_case(case):
     if r.ok:
       old_n, new_n = current_names(stt, before), current_names(stt, after)
       requested = set(str(x) for u in uas for x in _requested_names(u))
+      addressed = _renamed_ents(stt, uas, before)
       for e in sorted(stt['present']):
-        if old_n[e] != new_n[e] and e in _renamed_ents(stt, uas, before):
-          if new_n[e] not in requested:
-            out.cls('actual:differs-from-requested')
-            if re.search(r'[A-Za-z_]\d+$', new_n[e]) and any(l.endswith('-existing') for l in labels):
-              out.cls('actual:numeric-suffix')
+        if old_n[e] != new_n[e] and e in addressed and new_n[e] not in requested:
+          out.cls('actual:differs-from-requested')
+          if re.search(r'[A-Za-z_]\d+$', new_n[e]) and any(l.endswith('-existing') for l in labels):
+            out.cls('actual:numeric-suffix')
     if judge(stt, before, after, r, out, uas, fn_table):
       nontrivial = True
     before = after
